@@ -26,6 +26,8 @@ pub const N_QR_SLOTS: usize = 4;
 pub const N_RENDER_SLOTS: usize = 2;
 /// Raster renders are restricted to symbols up to this size (V6 = 41 modules) to keep runs short.
 pub const MAX_RASTER_QR_SIZE: usize = 41;
+/// No scheduling decision for this long = the simulation hangs (see `run_episode`).
+pub const STALL_SECS: u64 = 8;
 
 // ---------------------------------------------------------------------------
 // Episode description
@@ -357,6 +359,8 @@ pub struct EpisodeResult {
     pub n_tasks: usize,
     pub n_ops: usize,
     pub policy: String,
+    #[serde(default)]
+    pub hung: bool,
 }
 
 fn classify_panic(p: Box<dyn std::any::Any + Send>) -> Outcome {
@@ -437,9 +441,31 @@ pub fn run_episode(ep: &Episode, pristine: &Pristine) -> EpisodeResult {
         handles.push(h);
     }
     sim.start();
-    sim.wait_all_done();
+    if !sim.wait_all_done(STALL_SECS) {
+        // A task is blocked in the kernel while holding the baton (a real blocking primitive
+        // the simulator does not own). The threads cannot be recovered: report and let the
+        // worker process end. This is a hang of the simulation, never a verdict on the crate.
+        let (decisions, trace_hash, sstats) = sim.snapshot();
+        let o = oracle.lock().unwrap();
+        return EpisodeResult {
+            index: ep.index,
+            violation: o.violation.clone(),
+            trace_hash,
+            outcome_hash: o.outcome_hash,
+            decisions,
+            sched: sstats,
+            oracle: o.stats.clone(),
+            n_tasks,
+            n_ops: ep.n_ops(),
+            policy: ep.sched.policy.name().to_string(),
+            hung: true,
+        };
+    }
     for h in handles {
         let _ = h.join();
+    }
+    if let Some(d) = sim.deadlock() {
+        oracle.lock().unwrap().violate("I6_deadlock", "Episode", usize::MAX - 1, 0, d);
     }
 
     // --- episode end: shared QR codes must be untouched (I3) ------------------
@@ -475,6 +501,7 @@ pub fn run_episode(ep: &Episode, pristine: &Pristine) -> EpisodeResult {
         n_tasks,
         n_ops: ep.n_ops(),
         policy: ep.sched.policy.name().to_string(),
+        hung: false,
     }
 }
 
